@@ -737,6 +737,12 @@ def check(model, rep, tier):
   rep.unit('dup-eval placeholders', na)
   rep.unit('dup-eval handlers', nb)
 
+  # ---------------------------------------------------------------- FRAME
+  rep.rule('FRAME', 'manually entered converter-state frames are left on every '
+           'path', floor=6)
+  rules_trav.state_pairing(model, rep, 'FRAME', _rels if False else sorted(
+      m.rel for m in model.modules.values() if m.rel.startswith(CONV)))
+
   # ---------------------------------------------------------------- STALE
   rep.rule('STALE', 'no handler embeds a child it read off the node before the '
            'visitor rewrote the node', floor=20)
